@@ -63,17 +63,24 @@ memmem(const void *h, size_t hn, const void *nd, size_t nn) {
 
 int
 memcmp(const void *a, const void *b, size_t n) {
+	unsigned char ca, cb;
+
 	__CPROVER_assert(n == 0 || (__CPROVER_r_ok(a, n) && __CPROVER_r_ok(b, n)),
 	    "memcmp: spans readable");
 	__CPROVER_assume(n == 0 || (__CPROVER_r_ok(a, n) && __CPROVER_r_ok(b, n)));
-	if (n <= 8) {	/* short compares ("HTTP/", CRLF) are exact: callers rely on them */
-		for (size_t i = 0; i < 8; i ++) {
-			if (i >= n)
-				break;
-			unsigned char ca = ((const unsigned char *)a)[i], cb = ((const unsigned char *)b)[i];
-			if (ca != cb)
-				return (ca < cb ? -1 : 1);
+	if (n <= 8) {	/* short compares ("HTTP/", CRLF) are exact: callers rely on them.
+			 * Written without a loop: with --apply-loop-contracts every loop of
+			 * the program needs a contract. */
+#define VF_CMP_STEP(i)								\
+		if ((i) < n) {							\
+			ca = ((const unsigned char *)a)[(i)];			\
+			cb = ((const unsigned char *)b)[(i)];			\
+			if (ca != cb)						\
+				return (ca < cb ? -1 : 1);			\
 		}
+		VF_CMP_STEP(0) VF_CMP_STEP(1) VF_CMP_STEP(2) VF_CMP_STEP(3)
+		VF_CMP_STEP(4) VF_CMP_STEP(5) VF_CMP_STEP(6) VF_CMP_STEP(7)
+#undef VF_CMP_STEP
 		return (0);
 	}
 	return (nondet_int());
